@@ -65,6 +65,14 @@ class Impl:
         os.makedirs(self.root)
         for p, d in sc["tree"].items():
             rt.mk(self.root, {p: data_bytes(d)}, mtime=sc.get("mtime", 1760000000))
+        # second names of the same file (hard links): the tree lists both names with the same content, on disk they
+        # share one inode
+        for dst, src in (sc.get("hardlinks") or {}).items():
+            try:
+                os.remove(self.P(dst))
+                os.link(self.P(src), self.P(dst))
+            except OSError:
+                pass
         self.iifile = os.path.join(base, "_ii.txt")
         self.flat_n = 0
         try:
@@ -88,10 +96,34 @@ class Impl:
         return self.iifile
 
     def run(self, op):
+        """one operation; `tz` runs it with another host time zone (and, for commands that do not write, the real
+        clock - the frozen clock hides the zone)"""
+        tz = op.get("tz")
+        if not tz:
+            return self._run(op)
+        import time as _t
+        old = os.environ.get("TZ")
+        os.environ["TZ"] = tz
+        _t.tzset()
+        try:
+            return self._run(op)
+        finally:
+            if old is None:
+                os.environ.pop("TZ", None)
+            else:
+                os.environ["TZ"] = old
+            _t.tzset()
+
+    def _run(self, op):
         k = op["op"]
         now = op.get("now", DEFAULT_NOW)
+        if op.get("tz") and k in ("info", "infosf", "verify", "diff", "verifydh"):
+            now = None
         at = self.P(op.get("at", ""))
         if k in ("write",):
+            fp = self.P(op["path"])
+            if os.path.isfile(fp) and os.stat(fp).st_nlink > 1:
+                os.remove(fp)  # a write replaces this NAME only (the other names of a hard-linked file keep the old bytes)
             rt.mk(self.root, {op["path"]: data_bytes(op["data"])}, mtime=op.get("mtime", 1760000100))
             return None
         if k == "mkdir":
@@ -266,7 +298,12 @@ class Impl:
         elif k == "flatten":
             self.flat_n += 1
             dest = os.path.join(self.base, "_flat%d" % self.flat_n)
-            if op.get("dest_rel"):
+            if op.get("dest_missing_parent"):
+                # a destination whose parent folders do not exist (a mistyped volume): whatever flatten does, it has no
+                # business creating folders that are not below the destination
+                dest = os.path.join(self.base, "_nowhere%d" % self.flat_n, "deep", "lists")
+                r = rt.run("flatten", [at, dest], now, cwd)
+            elif op.get("dest_rel"):
                 # relative destination, invoked from the parent of the scenario root
                 r = rt.run("flatten", [at, "_flat%d" % self.flat_n], now, self.base)
             else:
@@ -468,6 +505,9 @@ def run_scenario(sc, drv=None, keep=False, impl_only=False):
                     mop.pop("_dest", None)
                     if k in ("verifypl", "infosf") and io is None:
                         res["steps"].append({"op": op, "impl": None, "model": None})
+                        continue
+                    if op.get("impl_only"):
+                        res["steps"].append({"op": op, "impl": io, "model": None})
                         continue
                     mo = drv.command(mop, commit=(k == "create"))
                     diffs = compare(op, io, mo)
